@@ -135,7 +135,12 @@ def _twin(plan, kind):
     for i, (x, y) in enumerate(zip(ua, ub)):
       if kind == 'lr_twin':
         want = x * fdt(c)
-        ok = np.array_equal(want, y, equal_nan=True)
+        # linear in lr; the two worlds are separately compiled programs whose
+        # last multiplication may be fused differently: allow 4 ulp
+        ulp = np.finfo(fdt).eps
+        with np.errstate(invalid='ignore'):
+          ok = bool(np.all((np.abs(want - y) <= 4 * ulp * np.abs(want)) |
+                           (np.isnan(want) & np.isnan(y)) | (want == y)))
         tiny = np.any((np.abs(want) < 1e-30) & (want != 0)) if want.size else False
         if not ok and tiny:
           ctx.ev('lr_linear', 'vacuous')
